@@ -319,3 +319,95 @@ theorem entryOut_control (cfg : WrapCfg) (e : EntryS) (more : Bool) (hwf : e.WF)
       wrap_wf cfg e hwf hc, wrap_termAll cfg e⟩
 
 end Deb822Verif.Ctl
+
+namespace Deb822Verif.Ctl
+open Deb822Verif Deb Node Spec
+
+/-! ### `Source::wrap_and_sort` / `Binary::wrap_and_sort`: one paragraph -/
+
+/-- the hypothesis on the relationship fields of one paragraph -/
+def ParaRelOK (p : ParaS) : Prop :=
+  ∀ e ∈ paraEntries p, relFields.contains e.key = true → ∃ f : RelSpec.FieldA, f.WF ∧ f.str = rawText e
+
+theorem paraSrc (p : ParaS) (more : Bool) (hwf : p.WF) (ht : p.Term more) (hrel : ParaRelOK p) :
+    ∀ e ∈ entries p.node, ∃ x : EntryS, e = x.node ∧ x.WF ∧ (∃ m, x.Term m)
+      ∧ (relFields.contains x.key = true → ∃ f : RelSpec.FieldA, f.WF ∧ f.str = rawText x) := by
+  intro e he
+  rw [entries_para] at he
+  simp only [List.mem_map] at he
+  obtain ⟨x, hx, rfl⟩ := he
+  obtain ⟨h1, h2⟩ := paraEntries_props p more hwf ht x hx
+  exact ⟨x, rfl, h1, h2, hrel x hx⟩
+
+/-- **`Source` / `Binary::wrap_and_sort` is idempotent** on a well-formed paragraph whose
+    relationship fields are well-formed -/
+theorem paraWrap_idem (cfg : WrapCfg) (p : ParaS) (more : Bool) (hwf : p.WF) (ht : p.Term more)
+    (hc : IndentOK cfg) (hrel : ParaRelOK p) (p' : DNode) (h : paraWrap cfg p.node = some p') :
+    paraWrap cfg p' = some p' := by
+  obtain ⟨_, hd⟩ := paraWrap_some cfg p.node p' h
+  have hsrc := paraSrc p more hwf ht hrel
+  have h2 := paragraphWrap_idem_of cfg none (some formatField) (by intro f hf; cases hf) p.node p' hd
+    (fun e e' he hee => by
+      obtain ⟨x, rfl, h1, ⟨m, h2'⟩, h3⟩ := hsrc e he
+      exact entry_fixed cfg x m h1 h2' hc h3 e' hee)
+  obtain ⟨ws', hpw', _, _, he', he, _⟩ := paragraphWrap_fmt cfg none formatField p.node p' hd
+  have hguard : paraPanics p' = false := by
+    unfold paraPanics
+    apply List.any_eq_false.2
+    intro e' hem
+    rw [he'] at hem
+    simp only [sortBy, List.mem_map] at hem
+    obtain ⟨w0, hw0, rfl⟩ := hem
+    obtain ⟨g0, hg0, hr0⟩ := Pointwise.mem_right hpw' w0 hw0
+    have hge : g0.2 ∈ entries p.node := by rw [he]; exact List.mem_map_of_mem hg0
+    obtain ⟨x, hx, h1, ⟨m, h2'⟩, h3⟩ := hsrc g0.2 hge
+    rw [hx] at hr0
+    simp [entryPanics_result cfg x m h1 h2' h3 w0.2 hr0.2.1]
+  simp [paraWrap, hguard, h2]
+
+/-- **strict re-read of `Source` / `Binary::wrap_and_sort`'s output**: the printed paragraph parses
+    strictly to one paragraph with exactly the items the returned paragraph reports -/
+theorem paraWrap_reread (cfg : WrapCfg) (p : ParaS) (more : Bool) (hwf : p.WF) (ht : p.Term more)
+    (hc : IndentOK cfg) (hrel : ParaRelOK p)
+    (hup : ∀ e ∈ paraEntries p, e.key = kUploaders →
+      ∃ L, GoodLines L ∧ fmtCommaLines kUploaders (rawText e) = Text.join ['\n'] L) :
+    ∃ p' : DNode, paraWrap cfg p.node = some p'
+      ∧ ∃ d' : DocS, d'.WF ∧ DocTermAll d' ∧ p'.text = d'.str ∧ parse p'.text = ⟨d'.tree, []⟩
+          ∧ docItems d'.tree = [items p'] := by
+  classical
+  have hout : ∀ e ∈ paraEntries p, ∃ eo, EntryOut cfg (some formatField) e eo := by
+    intro e he
+    obtain ⟨h1, m', h2⟩ := paraEntries_props p more hwf ht e he
+    by_cases hu : e.key = kUploaders
+    · obtain ⟨L, hL, hfl⟩ := hup e he hu
+      exact ⟨_, entryOut_lines cfg formatField e m' h1 h2 hc L hL (by
+        rw [hu, formatField_uploaders]; exact hfl)⟩
+    · exact entryOut_control cfg e m' h1 h2 hc hu (hrel e he)
+  let outE : EntryS → EntryS := fun e =>
+    if h : ∃ eo, EntryOut cfg (some formatField) e eo then Classical.choose h else e
+  have houtE : ∀ e ∈ paraEntries p, EntryOut cfg (some formatField) e (outE e) := by
+    intro e he
+    have h := hout e he
+    simp only [outE, dif_pos h]
+    exact Classical.choose_spec h
+  obtain ⟨pg, hok, hpg⟩ := paragraphWrap_paraS_gen cfg none (some formatField) p more hwf ht outE houtE
+  have hnp : paraPanics p.node = false :=
+    paraPanics_node p more hwf ht (fun e he => fieldOK_of e (hrel e he))
+  refine ⟨pg.node, by simp [paraWrap, hnp, hpg], ?_⟩
+  have hzs : ∀ z ∈ [(([] : List Str), pg)], z.2.OK ∧ ∀ c ∈ z.1, NoNl c := by
+    intro z hz
+    simp only [List.mem_cons, List.not_mem_nil, or_false] at hz
+    subst hz; exact ⟨hok, by simp⟩
+  have hd' := mkDoc_wf [([], pg)] [] hzs (by simp)
+  have hleaves : pg.node.leaves = (mkDoc [([], pg)] []).toks := by
+    have := leaves_docOut [([], pg)] [] (fun z hz => (hzs z hz).1)
+    simp only [docOut, List.map_cons, List.map_nil, joinParas, commentLines, List.append_nil, docGroup, zgrp,
+      termOf_pg pg hok] at this
+    simpa using this
+  have htext : pg.node.text = (mkDoc [([], pg)] []).str := by
+    rw [← tokText_leaves, hleaves, tokText_docToks _ hd']
+  refine ⟨mkDoc [([], pg)] [], hd', mkDoc_termAll _ _ hzs (by simp), htext, ?_, ?_⟩
+  · rw [htext]; unfold parse; rw [lex_doc _ hd', parse_doc _ hd']
+  · rw [mkDoc_items _ _ (fun z hz => (hzs z hz).1)]; rfl
+
+end Deb822Verif.Ctl
